@@ -224,6 +224,65 @@ class Ctx:
             raise MachineryError("TLC failed on %s/%s (rc=%s):\n%s" % (module, cfg, rc, tail(outp)))
         return res
 
+    def tlc_trace(self, module, cfg, rec, chunk_mb=24, **kw):
+        """Trace validation of the ndjson file `rec` (one initial state per record, verdict tuples <<"OK"|"BAD", k, ..>>).
+
+        TLC keeps the whole deserialized file in memory (about 30 times its size): a file above chunk_mb is validated
+        in pieces on line boundaries, the record numbers of the verdict tuples are shifted back and the results merged.
+        """
+        env = dict(kw.pop("env", None) or {})
+        chunk_mb = float(os.environ.get("VERIF_TRACE_CHUNK_MB", chunk_mb))
+        if os.path.getsize(rec) <= chunk_mb * (1 << 20):
+            env["TRACE_FILE"] = rec
+            return self.tlc(module, cfg, env=env, **kw)
+        merged = TlcResult()
+        merged.ok = True
+        self._ntlc += 1
+        merged.out_path = os.path.join(self.scratch, "tlc%d.merged.out" % self._ntlc)
+        pat = re.compile(r'^(<<\s*"(?:OK|BAD)",\s*)(\d+)')
+        offset, piece, size, nchunk = 0, [], 0, 0
+
+        def flush():
+            nonlocal offset, piece, size, nchunk
+            if not piece:
+                return
+            nchunk += 1
+            cp = "%s.chunk%d" % (rec, nchunk)
+            with open(cp, "w") as f:
+                f.writelines(piece)
+            env["TRACE_FILE"] = cp
+            try:
+                r = self.tlc(module, cfg, env=dict(env), **kw)
+            finally:
+                os.remove(cp)
+            with open(r.out_path, errors="replace") as fin, open(merged.out_path, "a") as fout:
+                for l in fin:
+                    m = pat.match(l)
+                    if m:
+                        l = m.group(1) + str(int(m.group(2)) + offset) + l[m.end():]
+                    fout.write(l)
+            os.remove(r.out_path)
+            merged.generated += r.generated
+            merged.distinct += r.distinct
+            merged.depth = max(merged.depth, r.depth)
+            merged.wall += r.wall
+            merged.ok = merged.ok and r.ok
+            merged.violated += r.violated
+            merged.errors += r.errors
+            offset += len(piece)
+            piece, size = [], 0
+
+        with open(rec) as f:
+            for l in f:
+                if not l.endswith("\n"):
+                    l += "\n"
+                if piece and size + len(l) > chunk_mb * (1 << 20):
+                    flush()
+                piece.append(l)
+                size += len(l)
+        flush()
+        return merged
+
     def _parse_tlc(self, res, coverage):
         gen = re.compile(r"^(\d+) states generated, (\d+) distinct states found")
         dep = re.compile(r"^The depth of the complete state graph search is (\d+)")
